@@ -1,8 +1,7 @@
 (* The depth-first walk that collects a state set's full auth chain is sound for the
    specification's reachability relation: everything it collects is reachable from an event
    of the set through auth events that are among the supplied ones.  (Completeness - the walk
-   misses nothing, i.e. the fuel suffices - is not proved here; the saturation oracle of
-   V2Spec checks it on every generated case.) *)
+   misses nothing, i.e. the fuel suffices - is proved in ChainCompleteProofs.v.) *)
 From Coq Require Import Permutation Lia.
 From Verif Require Import Lib.Bytes StateRes.Event StateRes.Kahn StateRes.V2 StateRes.V2Spec.
 Local Open Scope nat_scope.
